@@ -206,10 +206,25 @@ class Check(object):
             'level': self.level, 'coverage': cov, 'assumptions': self.assumptions,
             'wall_s': round(wall, 2), 'violations': len(self.violations),
         }
-        os.makedirs(EVIDENCE_DIR, exist_ok=True)
-        with open(os.path.join(EVIDENCE_DIR, self.prop + '.json'), 'w') as f:
+        # evidence/<id>.json describes runs against /repo itself; runs against another tree (VERIF_REPO: seeded changes,
+        # mutation probes) go to evidence/other-tree/ so that they never replace it
+        outdir = EVIDENCE_DIR if os.path.realpath(REPO) == '/repo' else os.path.join(EVIDENCE_DIR, 'other-tree')
+        os.makedirs(outdir, exist_ok=True)
+        ev['tree'] = os.path.realpath(REPO)
+        with open(os.path.join(outdir, self.prop + '.json'), 'w') as f:
             json.dump(ev, f, indent=1, default=str)
             f.write('\n')
+        if outdir == EVIDENCE_DIR:
+            # one-line summary per tier (the appendix of DESIGN.md is generated from these)
+            os.makedirs(os.path.join(EVIDENCE_DIR, 'tiers'), exist_ok=True)
+            summ = {'property_id': self.prop, 'tier': self.tier, 'obligations': n_q, 'witnesses': len(self.witnesses),
+                    'paths': self.paths, 'solver_time_s': round(self.solver_time, 1), 'wall_s': round(wall, 1),
+                    'known_findings_hit': [k['id'] for k in self.known_hits], 'violations': len(self.violations),
+                    'inconclusive': len(self.inconclusive), 'harness_errors': len(self.harness_errors),
+                    'bounds': self.bounds, 'functions_encoded': len(self.functions)}
+            with open(os.path.join(EVIDENCE_DIR, 'tiers', '%s-%s.json' % (self.prop, self.tier)), 'w') as f:
+                json.dump(summ, f, indent=1, default=str)
+                f.write('\n')
         if self.violations:
             code = EXIT_VIOLATION
         elif self.harness_errors:
